@@ -69,6 +69,8 @@ IndexSet(L) == IF Dense THEN (-(L + 1))..(L + 1)
                ELSE {i \in {0, 1, L \div 2, L - 1, L - 3, L - 4, L - 5, -1, -L, L} : TRUE}
 WindowSet(L) == IF Dense THEN {<<o, l>> : o \in 0..(L + 1), l \in {NoneV} \cup 0..(L + 1)}
                 ELSE {w \in {<<0, NoneV>>, <<1, 2>>, <<L \div 2, 1>>, <<L - 2, 5>>, <<L - 6, 3>>, <<0, 1>>, <<L, 1>>} : w[1] >= 0}
+                     \cup {<<-1, 1>>}          \* a request that raises (negative offset): must leave no state behind
+SliceSet(L) == {<<NoneV, NoneV, -1>>, <<1, L, 2>>, <<-2, NoneV, NoneV>>, <<L, 0, -2>>, <<0, 0, 0>>}
 
 (* ------------------------------ actions --------------------------------- *)
 NoIter == [kind |-> "none", ch |-> "x", n |-> 0]
@@ -110,6 +112,13 @@ Window(c, off, len) ==
   /\ LET a == AlgWindow(SegsOf(sh, c), sh.il, off, len)
      IN /\ Record([op |-> "window", ch |-> c, off |-> off, len |-> len, res |-> Delivered(a)])
         /\ cursor' = IF a.tags = {} THEN cursor ELSE <<-1, -1>>
+  /\ UNCHANGED <<sh, cache, iters>>
+
+Slice(c, start, stop, step) ==
+  /\ CanAct
+  /\ Record([op |-> "slice", ch |-> c, start |-> start, stop |-> stop, step |-> step,
+             res |-> AlgSlice(SegsOf(sh, c), sh.il, start, stop, step)])
+  /\ cursor' = <<-1, -1>>
   /\ UNCHANGED <<sh, cache, iters>>
 
 IterNew(i, kind, c) ==
@@ -156,6 +165,7 @@ IterNext(i) ==
 Next ==
   \/ \E c \in Chans : \E i \in IndexSet(LenOf(sh, c)) : Index(c, i)
   \/ \E c \in Chans : \E w \in WindowSet(LenOf(sh, c)) : Window(c, w[1], w[2])
+  \/ \E c \in Chans : \E sl \in SliceSet(LenOf(sh, c)) : Slice(c, sl[1], sl[2], sl[3])
   \/ \E i \in 1..MaxIters : \E c \in Chans : IterNew(i, "chan", c)
   \/ \E i \in 1..MaxIters : IterNew(i, "file", "x")
   \/ \E i \in 1..MaxIters : IterNext(i)
@@ -165,7 +175,8 @@ Spec == Init /\ [][Next]_vars
 \* the result of the same request on a freshly opened file
 Fresh(o) ==
   CASE o.op = "index"  -> AbsIndex(LenOf(sh, o.ch), o.i)
-    [] o.op = "window" -> AbsWindow(LenOf(sh, o.ch), o.off, o.len)
+    [] o.op = "window" -> IF o.off < 0 THEN E("ValueError") ELSE AbsWindow(LenOf(sh, o.ch), o.off, o.len)
+    [] o.op = "slice"  -> AbsSlice(LenOf(sh, o.ch), o.start, o.stop, o.step)
     [] o.op = "next"   ->
          IF o.kind = "chan"
          THEN LET st == ChanStream(sh, o.ch) IN
@@ -177,7 +188,7 @@ Fresh(o) ==
 
 \* C05: every read yields what it would yield on a freshly opened file; the k-th next() of a generator yields the
 \* k-th chunk of the full chunk sequence and StopIteration only after the last one
-ObsOK(o) == o.op \in {"index", "window", "next"} => o.res = Fresh(o)
+ObsOK(o) == o.op \in {"index", "window", "slice", "next"} => o.res = Fresh(o)
 HistoryIndependent == ObsOK(obs)
 \* the same as an action property, so that model checking may hide obs/hist behind a VIEW and still examine the
 \* result of every transition
